@@ -28,9 +28,25 @@ def is_call_to(*names, suffix=False):
 
 
 def strip_wrappers(e):
-    """peel value-preserving wrappers: casts, copies through `deref`/`as_ref`"""
+    """peel value-preserving wrappers: casts"""
     for _ in range(8):
         if e[0] == "cast":
+            e = e[1]
+            continue
+        break
+    return e
+
+
+def strip_views(e):
+    """peel casts and whole-value view calls (deref/as_ref/as_slice/...): `Deref::deref(&self.v)` -> `&self.v`"""
+    for _ in range(8):
+        if e[0] == "cast":
+            e = e[1]
+            continue
+        if e[0] == "call" and e[2] and any(e[1].endswith(v) for v in VIEW_CALLS):
+            e = e[2][0]
+            continue
+        if e[0] == "deref":
             e = e[1]
             continue
         break
@@ -255,7 +271,7 @@ def edges_of_switch_on(body, leaf_pred):
 
 
 def dominated_by_cut(body, sites, cut_edges, start=0):
-    """True iff every path from `start` to each site block crosses one of cut_edges"""
+    """the sites still reachable from `start` without crossing one of cut_edges (empty list = dominated)"""
     reach = body.reachable(start, cut_edges=cut_edges)
     return [s for s in sites if s in reach]  # the offending (still reachable) sites
 
